@@ -121,7 +121,30 @@ def field_stores(fn):
                             else:
                                 break
                         path = "".join(pre) + path
-                    out.setdefault(path, []).append((bi, rvalue_origin(fn, s["rv"], 0, frozenset(), 40)))
+                    val = rvalue_origin(fn, s["rv"], 0, frozenset(), 40)
+                    out.setdefault(path, []).append((bi, val))
+                    # a whole sub-struct written with update syntax (`ctx.block = BlockEnv { number: n, ..ctx.block }`) is one
+                    # store per field it names; fields copied from the old value of the same place are not stores
+                    if val[0] == "agg" and len(val) > 3 and val[3] and len(val[3]) == len(val[2]):
+                        for fld, op in zip(val[3], val[2]):
+                            o = op
+                            while o[0] in ("ref", "deref", "cast"):
+                                o = o[1]
+                            same_place = False
+                            if o[0] == "field" and o[2] == "." + fld:
+                                chain = []
+                                x = o[1]
+                                for _ in range(12):
+                                    if x[0] in ("ref", "deref", "cast"):
+                                        x = x[1]
+                                    elif x[0] == "field" and isinstance(x[2], str) and x[2].startswith("."):
+                                        chain.insert(0, x[2])
+                                        x = x[1]
+                                    else:
+                                        break
+                                same_place = "".join(chain) == path
+                            if not same_place:
+                                out.setdefault(path + "." + fld, []).append((bi, op))
     return out
 
 
